@@ -28,9 +28,11 @@ sub-problem that the cache consulted by the compilation prunes, deeper than …"
 `theta` (Stage 1, `Proofs/Theta.lean`) and `fresh` (a cut-set node handed out is not refused by the cache once the
 updates of its own compilation are applied).
 
-Hypothesis on the order: **best-first** — the popped node has the largest upper bound of the fringe (`MaxUB`, the order
-of `CStep.hmax` in `Props/C01d.lean`).  It is what makes the capping `ub.min(cutset_node.ub)` of `enqueue_cutset` harmless
-when the parent's bound was computed in a diagram cut by the cache. -/
+**No hypothesis on the order**: the popped node `N` is *any* element of the fringe.  `enqueue_cutset` pushes a cut-set
+node with the bound its own diagram gave it (repair of finding D14), so a bound computed in a diagram cut by the cache is
+never transferred to another node and the invariant is preserved for every pop order.  (Before the repair the cut-set
+nodes were capped by `N.ub` — `ub.min(cutset_node.ub)` — and this file needed "best-first: `N` has the largest bound of
+the fringe" exactly to make that cap harmless; `Ddo.C09.anyOrderOpt_false` is what happens without it.) -/
 set_option linter.unusedSectionVars false
 set_option linter.unusedVariables false
 namespace Ddo.C09
@@ -233,48 +235,35 @@ theorem drop_inv (N : SubP S) (F' : List (SubP S)) (T : CView S) (lb : Int) (sol
     exact hL _ _ hgt (hinv.open_ c (List.mem_cons_of_mem _ hc) y hy hgt)
 
 /-- one compilation `o` of the popped node `N` (updates `ups`, contract `hC`), new fringe `Fn` = the rest of the fringe
-    plus the capped cut-set nodes that beat `bk` when `o` is not exact -/
-theorem step_generic (hPhi : ∀ (c : SubP S) (u : Int), optOf H { c with ub := u } = optOf H c)
-    (N : SubP S) (F' Fn : List (SubP S)) (T : CView S) (lb0 lbS bk : Int) (sol0 soln : Option (List Dec))
+    plus the cut-set nodes (with their own bounds) that beat `bk` when `o` is not exact.  `N` is any element of the fringe:
+    no hypothesis on the pop order. -/
+theorem step_generic (N : SubP S) (F' Fn : List (SubP S)) (T : CView S) (lb0 lbS bk : Int) (sol0 soln : Option (List Dec))
     (o : DDOut S) (ups : List (S × Nat × Int × Bool))
     (hinv : CInvC H opt Sol Rg (N :: F') T lb0 sol0)
-    (hbf : ∀ c ∈ F', c.ub ≤ N.ub)
     (hC : CompC H opt Sol Rg N lbS T o ups bk)
     (h0S : lb0 ≤ lbS) (hSk : lbS ≤ bk)
     (hval : ∀ w, o.bestExact = some w → w ≤ bk)
     (hsub : ∀ c ∈ F', c ∈ Fn)
-    (hFn : ∀ c ∈ Fn, c ∈ F' ∨ (o.isExact = false ∧ ∃ c0 ∈ o.cutset, c = { c0 with ub := min N.ub c0.ub } ∧ min N.ub c0.ub > bk))
-    (henq : o.isExact = false → ∀ c0 ∈ o.cutset, min N.ub c0.ub > bk → { c0 with ub := min N.ub c0.ub } ∈ Fn)
+    (hFn : ∀ c ∈ Fn, c ∈ F' ∨ (o.isExact = false ∧ ∃ c0 ∈ o.cutset, c = c0 ∧ c0.ub > bk))
+    (henq : o.isExact = false → ∀ c0 ∈ o.cutset, c0.ub > bk → c0 ∈ Fn)
     (hlbn : bk ≤ opt) (hsoln : ∀ p, soln = some p → Sol p bk) :
     CInvC H opt Sol Rg Fn (T.upds ups) bk soln := by
-  -- (BF)
-  have hBF : ∀ x d, Live H (N :: F') T x d → x ≤ N.ub := by
-    intro x d hl
-    obtain ⟨c, hc, _, _, hxu, _⟩ := hl
-    rcases List.mem_cons.mp hc with e | e
-    · subst e; exact hxu
-    · have := hbf c e; omega
-  -- (N)
-  have hN : ∀ yN, optOf H N = some yN → yN > lb0 → yN ≤ N.ub := fun yN h1 h2 =>
-    hBF yN N.depth (hinv.open_ N List.mem_cons_self yN h1 h2)
   -- (CC)
   have hCC : ∀ d y, CacheCov H Rg T d y → y > lb0 → ∃ d' y'', d < d' ∧ y ≤ y'' ∧ Live H (N :: F') T y'' d' := by
     intro d y hcc hgt
     obtain ⟨s, d', t, v, h, hT, hdd, hrg, hvt, hH, hle⟩ := hcc
     exact ⟨d', v + h, hdd, hle, hinv.cache s d' t v h hT hrg hvt hH (by omega)⟩
   -- (Enq)
-  have hEnq : ∀ c' ∈ o.cutset, ∀ y' x, optOf H c' = some y' → x ≤ y' → x > bk → x ≤ N.ub →
+  have hEnq : ∀ c' ∈ o.cutset, ∀ y' x, optOf H c' = some y' → x ≤ y' → x > bk →
       Live H Fn (T.upds ups) x c'.depth ∨ CacheCov H Rg T c'.depth y' := by
-    intro c' hc' y' x hy' hxy hxb hxN
+    intro c' hc' y' x hy' hxy hxb
     rcases hC.ub c' hc' y' hy' (by omega) with h | h
     · cases hex : o.isExact with
       | true => have := hC.exactCut hex c' hc'; omega
       | false =>
         left
-        have hm : min N.ub c'.ub > bk := by omega
-        refine ⟨{ c' with ub := min N.ub c'.ub }, henq hex c' hc' hm, Nat.le_refl _,
-          ⟨y', by rw [hPhi]; exact hy', hxy⟩, by dsimp only; omega, ?_⟩
-        exact hC.fresh c' hc' (by omega)
+        have hm : c'.ub > bk := by omega
+        exact ⟨c', henq hex c' hc' hm, Nat.le_refl _, ⟨y', hy', hxy⟩, by omega, hC.fresh c' hc' hm⟩
     · exact Or.inr h
   -- transfer
   obtain ⟨D, hD⟩ := depth_bound (N :: F')
@@ -288,7 +277,6 @@ theorem step_generic (hPhi : ∀ (c : SubP S) (u : Int), optOf H { c with ub := 
       omega
     | succ n ih =>
       intro x d hd hxb hL
-      have hxN := hBF x d hL
       obtain ⟨c, hc, hdc, ⟨y, hy, hxy⟩, hxu, hnp⟩ := hL
       have hcov : ∀ d1 y1, d ≤ d1 → x ≤ y1 → CacheCov H Rg T d1 y1 → Live H Fn (T.upds ups) x d := by
         intro d1 y1 hd1 hx1 hcc
@@ -297,7 +285,7 @@ theorem step_generic (hPhi : ∀ (c : SubP S) (u : Int), optOf H { c with ub := 
       have hcs : ∀ c' ∈ o.cutset, ∀ y', d ≤ c'.depth → optOf H c' = some y' → x ≤ y' →
           Live H Fn (T.upds ups) x d := by
         intro c' hc' y' hdc' hy' hxy'
-        rcases hEnq c' hc' y' x hy' hxy' hxb hxN with h | h
+        rcases hEnq c' hc' y' x hy' hxy' hxb with h | h
         · exact live_mono H h (Int.le_refl _) hdc'
         · exact hcov c'.depth y' hdc' hxy' h
       rcases List.mem_cons.mp hc with e | e
@@ -329,12 +317,12 @@ theorem step_generic (hPhi : ∀ (c : SubP S) (u : Int), optOf H { c with ub := 
     intro c hc
     rcases hFn c hc with h | ⟨_, c0, hc0, rfl, _⟩
     · exact hinv.good c (List.mem_cons_of_mem _ h)
-    · intro y hy; rw [hPhi] at hy; exact hC.good c0 hc0 y hy
+    · exact hC.good c hc0
   · -- rng
     intro c hc
     rcases hFn c hc with h | ⟨_, c0, hc0, rfl, _⟩
     · exact hinv.rng c (List.mem_cons_of_mem _ h)
-    · exact hC.rng c0 hc0
+    · exact hC.rng c hc0
   · -- cache
     intro s d t v h hT hrg hvt hH hgt
     rcases upds_get ups T s d t hT with h1 | ⟨u, hu, hus, hud, ht⟩
@@ -344,9 +332,7 @@ theorem step_generic (hPhi : ∀ (c : SubP S) (u : Int), optOf H { c with ub := 
       rcases hC.theta u hu v h (by rw [hud]; exact hrg) hvt (by rw [hud, hus]; exact hH) with
         h1 | ⟨c', hc', hdc', y', hy', hyy'⟩ | h3
       · omega
-      · obtain ⟨yN, hyN, hle⟩ := hC.sub c' hc' y' hy'
-        have := hN yN hyN (by omega)
-        rcases hEnq c' hc' y' (v + h) hy' hyy' hgt (by omega) with h4 | h4
+      · rcases hEnq c' hc' y' (v + h) hy' hyy' hgt with h4 | h4
         · exact live_mono H h4 (Int.le_refl _) (by omega)
         · obtain ⟨d', y'', hdd, hyy, hL'⟩ := hCC c'.depth y' h4 (by omega)
           exact live_mono H (hTr' y'' d' (by omega) hL') (by omega) (by omega)
@@ -357,13 +343,10 @@ theorem step_generic (hPhi : ∀ (c : SubP S) (u : Int), optOf H { c with ub := 
     intro c hc y hy hgt
     rcases hFn c hc with h | ⟨_, c0, hc0, rfl, _⟩
     · exact hTr' y c.depth hgt (hinv.open_ c (List.mem_cons_of_mem _ h) y hy (by omega))
-    · have hy' : optOf H c0 = some y := by rw [hPhi] at hy; exact hy
-      obtain ⟨yN, hyN, hle⟩ := hC.sub c0 hc0 y hy'
-      have := hN yN hyN (by omega)
-      rcases hEnq c0 hc0 y y hy' (Int.le_refl _) hgt (by omega) with h4 | h4
+    · rcases hEnq c hc0 y y hy (Int.le_refl _) hgt with h4 | h4
       · exact h4
-      · obtain ⟨d', y'', hdd, hyy, hL'⟩ := hCC c0.depth y h4 (by omega)
-        exact live_mono H (hTr' y'' d' (by omega) hL') (by omega) (by dsimp only; omega)
+      · obtain ⟨d', y'', hdd, hyy, hL'⟩ := hCC c.depth y h4 (by omega)
+        exact live_mono H (hTr' y'' d' (by omega) hL') (by omega) (by omega)
 
 /-- `prunM` is the negation of `Cache::must_explore` -/
 theorem prunM_iff (T : CView S) (c : SubP S) : prunM T c ↔ mustExploreThr (T c.state c.depth) c.value = false := by
@@ -382,15 +365,13 @@ theorem prunM_iff (T : CView S) (c : SubP S) : prunM T c ↔ mustExploreThr (T c
       refine ⟨t, rfl, ?_⟩
       cases he : t.explored <;> simp [he] at h ⊢ <;> omega
 
-/-- **Stage 2**: one `process_one_node` with the cache preserves the invariant.  `N` = the popped node (best-first:
-    `hbf`), `st.fringe` = the rest of the fringe; the restricted compilation `r` consults `T`; a restricted diagram that
+/-- **Stage 2**: one `process_one_node` with the cache preserves the invariant.  `N` = the popped node (**any** element
+    of the fringe: no hypothesis on the pop order), `st.fringe` = the rest of the fringe; the restricted compilation `r` consults `T`; a restricted diagram that
     is not exact records nothing (`hrups`) and only has to be sound (`hrs`); the relaxed compilation `x` runs with the
     updated incumbent. -/
-theorem processC_inv (hPhi : ∀ (c : SubP S) (u : Int), optOf H { c with ub := u } = optOf H c)
-    (st : SeqSt S) (T : CView S) (N : SubP S) (r : DDOut S) (rups : List (S × Nat × Int × Bool))
+theorem processC_inv (st : SeqSt S) (T : CView S) (N : SubP S) (r : DDOut S) (rups : List (S × Nat × Int × Bool))
     (x : DDOut S) (xups : List (S × Nat × Int × Bool))
     (hinv : CInvC H opt Sol Rg (N :: st.fringe) T st.bestLb st.bestSol)
-    (hbf : ∀ c ∈ st.fringe, c.ub ≤ N.ub)
     (hrs : ∀ w, r.bestExact = some w → ∃ p, r.bestExactSol = some p ∧ Sol p w ∧ w ≤ opt)
     (hr : r.isExact = true → CompC H opt Sol Rg N st.bestLb T r rups (st.updateBest r).bestLb)
     (hrups : r.isExact = false → rups = [])
@@ -417,8 +398,8 @@ theorem processC_inv (hPhi : ∀ (c : SubP S) (u : Int), optOf H { c with ub := 
       · -- C1: the restricted diagram was exact
         simp only [hre, if_true]
         rw [f1]
-        exact step_generic H opt Sol Rg hPhi N st.fringe st.fringe T st.bestLb st.bestLb (st.updateBest r).bestLb
-          st.bestSol (st.updateBest r).bestSol r rups hinv hbf (hr hre) (Int.le_refl _) hge1
+        exact step_generic H opt Sol Rg N st.fringe st.fringe T st.bestLb st.bestLb (st.updateBest r).bestLb
+          st.bestSol (st.updateBest r).bestSol r rups hinv (hr hre) (Int.le_refl _) hge1
           (fun w hw => updateBest_lb_ge_val st r w hw) (fun c hc => hc) (fun c hc => Or.inl hc)
           (fun hf => by rw [hre] at hf; cases hf) hlb1 hsol1
       · have hre' : r.isExact = false := by simpa using hre
@@ -432,19 +413,19 @@ theorem processC_inv (hPhi : ∀ (c : SubP S) (u : Int), optOf H { c with ub := 
         · -- C2: the relaxed diagram was exact
           simp only [hxe, if_true]
           rw [hfr]
-          exact step_generic H opt Sol Rg hPhi N st.fringe st.fringe T st.bestLb (st.updateBest r).bestLb
+          exact step_generic H opt Sol Rg N st.fringe st.fringe T st.bestLb (st.updateBest r).bestLb
             ((st.updateBest r).updateBest x).bestLb
-            st.bestSol ((st.updateBest r).updateBest x).bestSol x xups hinv hbf hX hge1 hge2
+            st.bestSol ((st.updateBest r).updateBest x).bestSol x xups hinv hX hge1 hge2
             (fun w hw => updateBest_lb_ge_val (st.updateBest r) x w hw) (fun c hc => hc) (fun c hc => Or.inl hc)
             (fun hf => by rw [hxe] at hf; cases hf) hlb2 hsol2
         · -- C3: the cut-set is enqueued
           have hxe' : x.isExact = false := by simpa using hxe
           simp only [hxe', Bool.false_eq_true, if_false]
-          obtain ⟨e1, e2, _, _, e5⟩ := enqueue_false_spec ((st.updateBest r).updateBest x) N.ub x.cutset
+          obtain ⟨e1, e2, _, _, e5⟩ := enqueue_false_spec ((st.updateBest r).updateBest x) x.cutset
           rw [e1, e2]
-          refine step_generic H opt Sol Rg hPhi N st.fringe _ T st.bestLb (st.updateBest r).bestLb
+          refine step_generic H opt Sol Rg N st.fringe _ T st.bestLb (st.updateBest r).bestLb
             ((st.updateBest r).updateBest x).bestLb
-            st.bestSol ((st.updateBest r).updateBest x).bestSol x xups hinv hbf hX hge1 hge2
+            st.bestSol ((st.updateBest r).updateBest x).bestSol x xups hinv hX hge1 hge2
             (fun w hw => updateBest_lb_ge_val (st.updateBest r) x w hw) ?_ ?_ ?_ hlb2 hsol2
           · intro c hc
             exact (e5 c).mpr (Or.inl (by rw [hfr]; exact hc))
